@@ -1,15 +1,29 @@
-"""C27 implementation side: the REAL gear.database code over a fault-injecting fake aiomysql pool.
+"""C27 implementation side: the REAL gear.database code over a fault-injecting, recording fake aiomysql pool.
 
 stdin : {"cases": [case...], "hierarchy": bool}
   case  = {"entry": "transaction"|"just_execute"|"execute_update"|"execute_insertone"|"execute_many"|"execute_and_fetchone"|
-                    "select_and_fetchone"|"check_call_procedure",
-           "n": <number of statements (entry "transaction" only; the helpers issue exactly one)>,
+                    "select_and_fetchone"|"check_call_procedure"|"execute_and_fetchall"|"select_and_fetchall",
+           "n": <entry "transaction": number of statements; entry "execute_many": number of rows of the argument array;
+                 the other helpers issue exactly one statement>,
+           "chunk": <execute_many only: rows per wire statement (aiomysql's bulk INSERT path); default 1 = one statement per row>,
+           "nargs": <single-statement helpers: length of the argument tuple; default 1>,
            "init": [ints], "dirty_pool": bool, "hist": [faults...]}
-  faults = {"acquire": err, "start": [err, lost], "stmt": [i, err, "stmt"|"txn"|"lost"], "commit": [err, lost], "rollback": err}
-           (every key optional)
+  faults = {"acquire": err, "start": [err, lost], "stmt": [i, err, "stmt"|"txn"|"lost"], "commit": [err, lost], "commit_after": k,
+            "rollback": err}      (every key optional)
   err    = {"cls": <pymysql.err class name | "AppException">, "code": int | null}
-stdout: {"results": [{"result": "ok" | err, "attempts": k, "trace": [[err|null, committed log after the attempt], ...],
-                      "final": committed log at quiescence, "levels": [...], "sleeps": [...]}], "hierarchy": {...}}
+stdout: {"results": [{"result": "ok" | err, "attempts": k, "acquisitions": a,
+                      "trace": [[err|null, committed log after the attempt], ...], "final": committed log at quiescence,
+                      "fired": [[[site, err], ...] per attempt], "levels": [...], "sleeps": [...]}], "hierarchy": {...}}
+  a log longer than 40 entries is returned as {"runs": [[a, len], ...]} (maximal runs a, a+1, ..., lossless).
+
+The fault plan is indexed by the ATTEMPT OF THE RETRY WRAPPER, not by anything the code under test chooses: attempt k+1
+starts when gear.database.sleep_before_try (replaced by a zero-delay hook) is called for the k-th time; hist[k] is the plan
+of attempt k (attempts beyond the plan are fault-free).  Inside an attempt the statement index counts the statements
+(other than START TRANSACTION) executed successfully so far in this attempt, on whatever connection(s) and in however
+many transactions the code chooses to send them: "stmt": [i, ...] strikes the statement that would be the (i+1)-th.
+"commit" strikes the first COMMIT of the attempt issued after at least "commit_after" (default 0) statements, "start" the
+first START TRANSACTION, "acquire" the first pool.acquire().  With one transaction per attempt (the unchanged code) this
+is the per-attempt plan of coq/theories/DbTx/Model.v.
 
 The fake is the trusted stand-in for aiomysql 0.3 + MySQL/InnoDB (same semantics as coq/theories/DbTx/Model.v):
   * the database is the log of committed writes; a connection holds the pending writes of its open transaction;
@@ -17,7 +31,9 @@ The fake is the trusted stand-in for aiomysql 0.3 + MySQL/InnoDB (same semantics
   * a deadlock-like fault ("txn") makes the server roll the whole transaction back, a "stmt" fault only the statement,
     a "lost" fault closes the connection (aiomysql closes it in _read_bytes) and the server discards the transaction;
   * every command on a closed connection raises InterfaceError("(0, 'Not connected')") (aiomysql Connection._ensure_alive);
-  * Pool.release closes a connection that is still in a transaction and puts clean live ones back on the free list.
+  * Pool.release closes a connection that is still in a transaction and puts clean live ones back on the free list;
+  * Cursor.executemany(sql, rows) sends one statement per row (aiomysql's generic path) or, with "chunk" > 1, one statement
+    per `chunk` rows (its bulk INSERT ... VALUES path); it returns None for an empty array, else the number of rows.
 """
 import asyncio
 import json
@@ -32,6 +48,7 @@ from hailtop.aiotools import BackgroundTaskManager  # noqa: E402
 
 PY_CLASSES = ['MySQLError', 'Warning', 'Error', 'InterfaceError', 'DatabaseError', 'DataError', 'OperationalError', 'IntegrityError',
               'InternalError', 'ProgrammingError', 'NotSupportedError']
+LONG = 40
 
 
 class AppException(Exception):
@@ -61,6 +78,27 @@ def canon(ex):
     return {'cls': cls, 'code': a0 if isinstance(a0, int) and not isinstance(a0, bool) else None}
 
 
+def runs(log):
+    out = []
+    for x in log:
+        if out and x == out[-1][0] + out[-1][1]:
+            out[-1][1] += 1
+        else:
+            out.append([x, 1])
+    return out
+
+
+def enc(log):
+    return list(log) if len(log) <= LONG else {'runs': runs(log)}
+
+
+def wval(args):
+    """the write recorded for one statement / one row: its first argument, tagged with the arity when there are several"""
+    if isinstance(args, (list, tuple)):
+        return args[0] if len(args) == 1 else args[0] + 10 ** 6 * len(args)
+    return args
+
+
 class Server:
     def __init__(self, init):
         self.committed = list(init)
@@ -73,8 +111,6 @@ class FakeConn:
         self.pending = []
         self.in_trans = False        # client-side view of SERVER_STATUS_IN_TRANS (updated by OK packets only)
         self._closed = False
-        self.plan = {}
-        self.n_stmt = 0
 
     # --- aiomysql.Connection surface used by gear.database / Pool.release
     @property
@@ -94,9 +130,12 @@ class FakeConn:
     async def commit(self):
         self._ensure_alive()
         await asyncio.sleep(0)
-        f = self.plan.pop('commit', None)
-        if f is not None:
+        plan = self.pool.plan
+        f = plan.get('commit')
+        if f is not None and self.pool.n_stmt >= plan.get('commit_after', 0):
+            del plan['commit']
             err, lost = f
+            self.pool.note('commit-lost' if lost else 'commit', err)
             self.pending = []        # an error from COMMIT: nothing was committed
             if lost:
                 self.close()
@@ -108,8 +147,9 @@ class FakeConn:
     async def rollback(self):
         self._ensure_alive()
         await asyncio.sleep(0)
-        f = self.plan.pop('rollback', None)
+        f = self.pool.plan.pop('rollback', None)
         if f is not None:
+            self.pool.note('rollback', f)
             self.close()
             raise build(f)
         self.pending = []
@@ -120,13 +160,17 @@ class FakeConn:
         if self._closed:
             raise pymysql.err.InterfaceError("(0, 'Not connected')")
 
-    async def _query(self, sql, args):
+    async def _query(self, sql, writes, yield_=True):
+        """one wire statement carrying the list `writes`"""
         self._ensure_alive()
-        await asyncio.sleep(0)
+        if yield_:
+            await asyncio.sleep(0)
+        plan = self.pool.plan
         if sql.startswith('START TRANSACTION'):
-            f = self.plan.pop('start', None)
+            f = plan.pop('start', None)
             if f is not None:
                 err, lost = f
+                self.pool.note('start-lost' if lost else 'start', err)
                 if lost:
                     self.close()
                 raise build(err)
@@ -134,11 +178,12 @@ class FakeConn:
             self.pending = []
             self.in_trans = True
             return 0
-        i = self.n_stmt
-        f = self.plan.get('stmt')
+        i = self.pool.n_stmt
+        f = plan.get('stmt')
         if f is not None and f[0] == i:
-            del self.plan['stmt']
+            del plan['stmt']
             _, err, eff = f
+            self.pool.note('stmt-' + eff, err, i)
             if eff == 'txn':
                 self.pending = []
             elif eff == 'lost':
@@ -146,15 +191,16 @@ class FakeConn:
             elif eff != 'stmt':
                 raise SystemExit(f'c27_dbtx: unknown effect {eff}')
             raise build(err)
-        self.n_stmt += 1
-        self.pending.append(args[0] if isinstance(args, (list, tuple)) else args)
-        return 1
+        self.pool.n_stmt += 1
+        self.pending.extend(writes)
+        return len(writes)
 
 
 class FakeCursor:
     def __init__(self, conn):
         self.conn = conn
         self.lastrowid = 7
+        self._rows = None
 
     async def __aenter__(self):
         return self
@@ -163,17 +209,27 @@ class FakeCursor:
         return None
 
     async def execute(self, sql, args=None):
-        return await self.conn._query(sql, args)
+        r = await self.conn._query(sql, [wval(args)])
+        self._rows = [{'r': 1}, {'r': 2}]
+        return r
 
     async def executemany(self, sql, args_array):
-        # one statement as far as fault injection is concerned
-        return await self.conn._query(sql, [list(a)[0] for a in args_array][:1])
+        if not args_array:
+            return None
+        chunk = self.conn.pool.chunk
+        rows = 0
+        first = True
+        for k in range(0, len(args_array), chunk):
+            rows += await self.conn._query(sql, [wval(a) for a in args_array[k:k + chunk]], yield_=first)
+            first = False
+        return rows
 
     async def fetchone(self):
         return {'rc': 0}
 
     async def fetchmany(self, n):
-        return []
+        rows, self._rows = self._rows or [], []
+        return rows
 
 
 class _AcquireCM:
@@ -196,29 +252,40 @@ class _AcquireCM:
 
 
 class FakePool:
-    def __init__(self, server, hist):
+    def __init__(self, server, hist, chunk):
         self.server = server
         self.hist = [dict(h) for h in hist]
+        self.chunk = max(1, int(chunk))
         self.free = []
         self.used = set()
-        self.attempt = 0
-        self.snapshots = []
+        self.acquisitions = 0
+        self.attempt = 0                 # attempts of the retry wrapper started so far, minus one
+        self.plan = self.hist[0] if self.hist else {}
+        self.n_stmt = 0                  # statements executed so far in the current attempt
+        self.after = []                  # committed log left behind by attempt k
+        self.fired = [[]]
+
+    def note(self, site, err, index=None):
+        self.fired[-1].append([site, dict(err)] + ([index] if index is not None else []))
+
+    def next_attempt(self):
+        self.after.append(list(self.server.committed))
+        self.attempt += 1
+        self.plan = self.hist[self.attempt] if self.attempt < len(self.hist) else {}
+        self.n_stmt = 0
+        self.fired.append([])
 
     def acquire(self):
         return _AcquireCM(self)
 
     async def _acquire(self):
         await asyncio.sleep(0)
-        self.snapshots.append(list(self.server.committed))     # state left behind by the previous attempt
-        k = self.attempt
-        self.attempt += 1
-        plan = self.hist[k] if k < len(self.hist) else {}
-        f = plan.pop('acquire', None)
+        self.acquisitions += 1
+        f = self.plan.pop('acquire', None)
         if f is not None:
+            self.note('acquire', f)
             raise build(f)
         conn = self.free.pop() if self.free else FakeConn(self)
-        conn.plan = plan
-        conn.n_stmt = 0
         self.used.add(conn)
         return conn
 
@@ -246,7 +313,7 @@ class _Capture(logging.Handler):
 
 async def run_case(case):
     server = Server(case.get('init', []))
-    pool = FakePool(server, case.get('hist', []))
+    pool = FakePool(server, case.get('hist', []), case.get('chunk', 1))
     if case.get('dirty_pool'):
         # a connection that somehow got back to the pool with an open transaction (must never be produced by the code itself)
         c = FakeConn(pool)
@@ -260,6 +327,7 @@ async def run_case(case):
 
     async def fake_sleep_before_try(tries, *a, **k):
         sleeps.append(tries)
+        pool.next_attempt()
         await asyncio.sleep(0)
 
     gd.sleep_before_try = fake_sleep_before_try
@@ -269,6 +337,8 @@ async def run_case(case):
     gd.log.propagate = False
     entry = case['entry']
     n = case.get('n', 1)
+    nargs = max(1, int(case.get('nargs', 1)))
+    one = tuple(range(nargs))
     try:
         if entry == 'transaction':
             @gd.transaction(db)
@@ -280,29 +350,32 @@ async def run_case(case):
             val = await op('a', kw='kw')
             ok = val == 'done'
         elif entry == 'just_execute':
-            val = await db.just_execute('INSERT W', (0,))
+            val = await db.just_execute('INSERT W', one)
             ok = val is None
         elif entry == 'execute_update':
-            val = await db.execute_update('UPDATE W', (0,))
+            val = await db.execute_update('UPDATE W', one)
             ok = val == 1
         elif entry == 'execute_insertone':
-            val = await db.execute_insertone('INSERT W', (0,))
+            val = await db.execute_insertone('INSERT W', one)
             ok = val == 7
         elif entry == 'execute_many':
-            val = await db.execute_many('INSERT W', [(0,)])
-            ok = val == 1
+            val = await db.execute_many('INSERT W', [(i,) for i in range(n)])
+            ok = val == (n if n else None)
         elif entry == 'execute_and_fetchone':
-            val = await db.execute_and_fetchone('UPDATE W', (0,))
+            val = await db.execute_and_fetchone('UPDATE W', one)
             ok = val == {'rc': 0}
         elif entry == 'select_and_fetchone':
-            val = await db.select_and_fetchone('SELECT W', (0,))
+            val = await db.select_and_fetchone('SELECT W', one)
             ok = val == {'rc': 0}
         elif entry == 'check_call_procedure':
-            val = await db.check_call_procedure('CALL W', (0,))
+            val = await db.check_call_procedure('CALL W', one)
             ok = val == {'rc': 0}
+        elif entry in ('execute_and_fetchall', 'select_and_fetchall'):
+            val = [row async for row in getattr(db, entry)('UPDATE W' if entry == 'execute_and_fetchall' else 'SELECT W', one)]
+            ok = val == [{'r': 1}, {'r': 2}]
         else:
             raise SystemExit(f'c27_dbtx: unknown entry {entry}')
-        result = 'ok' if ok else {'cls': 'Other:wrong-return-value', 'code': None, 'msg': repr(val)}
+        result = 'ok' if ok else {'cls': 'Other:wrong-return-value', 'code': None, 'msg': repr(val)[:200]}
     except Exception as ex:  # noqa
         result = canon(ex)
     finally:
@@ -315,13 +388,13 @@ async def run_case(case):
     else:
         raise SystemExit('c27_dbtx: background release tasks did not finish')
     final = list(server.committed)
-    after = pool.snapshots[1:] + [final]                       # committed log after attempt k
+    after = pool.after + [final]                                # committed log after attempt k
     errs = [r[0] for r in cap.retries]
     # the retry wrapper logs every retried exception; the last attempt's outcome is the call's outcome
     per_attempt = errs + [None if result == 'ok' else result]
-    trace = [[per_attempt[k] if k < len(per_attempt) else {'cls': 'Other:unlogged', 'code': None}, after[k]] for k in range(len(after))]
-    return {'result': result, 'attempts': pool.attempt, 'trace': trace, 'final': final, 'levels': [r[1] for r in cap.retries],
-            'sleeps': sleeps, 'n_retry_logs': len(errs),
+    trace = [[per_attempt[k] if k < len(per_attempt) else {'cls': 'Other:unlogged', 'code': None}, enc(after[k])] for k in range(len(after))]
+    return {'result': result, 'attempts': pool.attempt + 1, 'acquisitions': pool.acquisitions, 'trace': trace, 'final': enc(final),
+            'fired': pool.fired, 'levels': [r[1] for r in cap.retries], 'sleeps': sleeps, 'n_retry_logs': len(errs),
             'pool_dirty': any(c.in_trans or c.pending for c in pool.free)}
 
 
